@@ -129,6 +129,16 @@ CHECKS["C12"] = dict(
          "request classes = response classes, per version.",
     note=TABLE_NOTE, design="4/C12")
 
+CHECKS["C13"] = dict(
+    technique="Rocq invariant over histories and over all thread schedules of a cache model + differential runs (histories, 8 threads, executor)",
+    text="C13_history: after any history of requests (any versions/directions/actions of the Action lists/payloads) the "
+         "verdict is that of the request validated alone; C13_threads: the same under every interleaving of the "
+         "lookup/load/store steps of any number of threads; both rest on the table fact that the cache key determines the "
+         "float mode (re-checked each run). Tied by comparing every verdict with the cold-cache verdict in shuffled "
+         "histories, on 8 real threads, inline vs executor, and with the model's pure verdict.",
+    note="Trusted: Coq kernel + VM, translator, the hand model of get_validator's cache. Partial: races inside jsonschema "
+         "objects and per-thread interpreter state (decimal context) are only observed.", design="4/C13")
+
 PENDING_REASON = "check not built yet in this round (work in progress; see DESIGN.md section 9)"
 
 
